@@ -27,12 +27,15 @@ ENV = {"INOVESA_VERIF_PRNG_SEED": "12345"}
 
 def run(o, wd, name, track, env=None):
     oo = dict(o)
+    # "_inherit_ign": the run is started the way a job script starts a background job - with SIGINT inherited as ignored.
+    # The program installs its handler regardless, so Ctrl+C / kill -INT must still end it cleanly (round-8 seed C14h)
+    ign = bool(oo.pop("_inherit_ign", False))
     if track:
         oo["tracking"] = "track.txt"
     e = dict(ENV)
     if env:
         e.update(env)
-    return cli.run(["-c", "/dev/null", "-o", name] + cli.optargs(oo), wd, env=e)
+    return cli.run(["-c", "/dev/null", "-o", name] + cli.optargs(oo), wd, env=e, sigint_ignored=ign)
 
 
 def read_labels(path):
@@ -219,6 +222,8 @@ def cases(draw):
     sched = [(draw(st.sampled_from(["uniform"] + ["loop"] * 8 + ["out"] * 8 + ["first", "last", "final"])), draw(st.floats(0, 0.999)))
              for _ in range(nsig)]
     c = dict(opts=o, track=track, schedule=sched)
+    if draw(st.integers(0, 3)) == 0:
+        o["_inherit_ign"] = True
     if len(o["BunchCurrent"]) == 1 and draw(st.integers(0, 4)) == 0:
         c["startleg"] = draw(st.integers(1, 8))
     return c
@@ -262,10 +267,12 @@ def run_async(case):
     o, d, track, U, R, labels = prep
     exe = os.environ["VERIF_REL"]
     oo = dict(o)
+    ign = bool(oo.pop("_inherit_ign", False))
     if track:
         oo["tracking"] = "track.txt"
     env = dict(os.environ, **ENV)
-    p = subprocess.Popen([exe, "-c", "/dev/null", "-o", "a.h5"] + cli.optargs(oo), cwd=wd, env=env, stdout=subprocess.PIPE, stderr=subprocess.PIPE)
+    p = subprocess.Popen([exe, "-c", "/dev/null", "-o", "a.h5"] + cli.optargs(oo), cwd=wd, env=env, stdout=subprocess.PIPE, stderr=subprocess.PIPE,
+                         preexec_fn=cli._ignore_sigint if ign else None)
     # "after start-up": the handler is installed before the program prints its first line
     first_line = p.stdout.readline()
     time.sleep(case["delay"])
@@ -321,6 +328,8 @@ def async_cases(draw):
         o.pop("alpha0", None)
     o.pop("padding", None)
     o.pop("RoundPadding", None)
+    if draw(st.integers(0, 3)) == 0:
+        o["_inherit_ign"] = True
     return dict(opts=o, track=[], delay=draw(st.floats(0.0, 0.6)), second=draw(st.sampled_from([0, 0, 0.002, 0.02])))
 
 
